@@ -5,12 +5,18 @@ from oracle_util import *  # noqa
 from protocol import from_real, pm
 
 ID = "C17"
-LEAN_MODULE = None
+LEAN_MODULE = "SCoda.Props.C17"
 CLAUSES = [
-    ("reflexive and symmetric", None),
-    ("a sequence equals its copy and any re-representation / re-ordering of the same events", None),
-    ("fails whenever a note's pitch, onset, duration, channel or velocity, or a signature or its tick, differs", None),
-    ("each ignore flag relaxes only its own attribute", None),
+    ("reflexive (every list, every flag set) and symmetric", ["SCoda.C17.refl", "SCoda.C17.symm"]),
+    ("insertion order and representation do not matter: permutations with distinct sort keys are interchangeable; only the sorted list is looked at",
+     ["SCoda.C17.perm_invariant", "SCoda.C17.equals_of_perm", "SCoda.C17.sort_invariant"]),
+    ("single-attribute sensitivity: two one-note sequences are equal iff channel, pitch, onset, duration and velocity agree; "
+     "a time signature's value and tick both matter", ["SCoda.C17.single_note", "SCoda.C17.single_time_signature"]),
+    ("each ignore flag relaxes only its own attribute: velocity = velocities erased, time/key signature = those events removed, "
+     "channel = uniform relabelling equal with the flag and unequal without",
+     ["SCoda.C17.flag_velocity", "SCoda.C17.flag_time_signature", "SCoda.C17.flag_key_signature",
+      "SCoda.C17.flag_channel_relabel", "SCoda.C17.flag_channel_strict"]),
+    ("general sensitivity: equals = true implies equal musical content (notes and signatures) for arbitrary well-formed sequences", None),
 ]
 RULE = ("base well-formed sequences (<=6 notes, signatures) paired with: themselves, shuffled insertion orders, the relative "
         "re-representation, and every single-attribute perturbation (pitch, onset, duration, velocity, channel relabel, "
